@@ -30,6 +30,9 @@ type hist struct {
 	pendingOn *tree.Tree
 	pendingOK bool
 	forceKeep bool // the next NNI is kept for a later Undo
+	// onSmall sees the result of an edit that reported success and left fewer than three tips, before the history
+	// goes back to the tree as it was (the history itself stays on trees with at least three tips)
+	onSmall func(t *tree.Tree, desc string)
 }
 
 type opFn func(h *hist) (desc string, err error, applicable bool)
@@ -215,6 +218,32 @@ var opTable = []opDef{
 		}
 		err := h.t.RemoveTips(revert, sub...)
 		return fmt.Sprintf("RemoveTips(revert=%v,%s)", revert, short(sub)), err, true
+	}},
+	{"RemoveTips.DownTo2", 1, func(h *hist) (string, error, bool) {
+		// pruning down to two tips: an error (unrooted trees) or a two-tip tree; either way the history goes on
+		// from the tree as it was before
+		tips := tipNames(h.t)
+		if len(tips) < 3 || h.onSmall == nil {
+			return "", nil, false
+		}
+		if h.singles {
+			h.t.RemoveSingleNodes()
+			h.singles = false
+		}
+		keep := randSubset(h.r, tips, 2)
+		if h.r.Intn(2) == 0 {
+			err := h.t.RemoveTips(true, keep...)
+			return fmt.Sprintf("RemoveTips(revert=true,%s)", short(keep)), err, true
+		}
+		var drop []string
+		for _, n := range tips {
+			if n != keep[0] && n != keep[1] {
+				drop = append(drop, n)
+			}
+		}
+		h.r.Shuffle(len(drop), func(i, j int) { drop[i], drop[j] = drop[j], drop[i] })
+		err := h.t.RemoveTips(false, drop...)
+		return fmt.Sprintf("RemoveTips(revert=false,%s)", short(drop)), err, true
 	}},
 	{"CollapseShortBranches", 4, func(h *hist) (string, error, bool) {
 		l := pickLen(h.r, h.t)
@@ -578,6 +607,9 @@ func (h *hist) step() (name, desc string, ok bool) {
 		// histories stay inside the domain of the properties: at least 3 tips (a non-monophyletic
 		// outgroup removed in non-strict mode takes its whole enclosing clade along)
 		if len(h.t.Tips()) < 3 {
+			if h.onSmall != nil {
+				h.onSmall(h.t, d)
+			}
 			h.t, h.singles = backup, bs
 			continue
 		}
